@@ -156,6 +156,10 @@ func traceField(v ssa.Value, tname string, seen map[ssa.Value]bool, out strset) 
 		// its results are loaded from
 		if sc := x.Call.StaticCallee(); sc != nil && len(sc.Blocks) > 0 && x.Parent() != nil && sc.Pkg == x.Parent().Pkg && len(seen) < 300 && isGetterShape(sc) {
 			got := strset{}
+			// the getter's own parameters stand for this call's arguments (traced below), not for every call site
+			for _, par := range sc.Params {
+				seen[par] = true
+			}
 			for _, b := range sc.Blocks {
 				if r, ok := b.Instrs[len(b.Instrs)-1].(*ssa.Return); ok {
 					for _, res := range r.Results {
@@ -177,6 +181,30 @@ func traceField(v ssa.Value, tname string, seen map[ssa.Value]bool, out strset) 
 	case *ssa.Phi:
 		for _, e := range x.Edges {
 			traceField(e, tname, seen, out)
+		}
+	case *ssa.Parameter:
+		// a helper's parameter: what its call sites in the package pass
+		h := x.Parent()
+		if h == nil || h.Pkg == nil || len(seen) > 200 {
+			return
+		}
+		idx := -1
+		for k, q := range h.Params {
+			if q == x {
+				idx = k
+			}
+		}
+		if idx < 0 {
+			return
+		}
+		for f := range ssautilAllFunctionsOf(h) {
+			for _, b := range f.Blocks {
+				for _, ins := range b.Instrs {
+					if ci, ok := ins.(ssa.CallInstruction); ok && ci.Common().StaticCallee() == h && idx < len(ci.Common().Args) {
+						traceField(ci.Common().Args[idx], tname, seen, out)
+					}
+				}
+			}
 		}
 	case *ssa.MakeSlice:
 		// a scratch buffer: what was written into it (binary.PutUintNN(buf, field))
